@@ -20,6 +20,7 @@ import Fir.Model.SimdU16x2
 import Fir.Model.SimdU16x3
 import Fir.Model.SimdU16x4A
 import Fir.Model.SimdU16x2A
+import Fir.Model.SimdU16x1A
 namespace Fir
 
 /-- C02 tolerance between two back-ends: integers identical, f32 a few ulps of a re-associated f64 sum -/
@@ -283,6 +284,21 @@ def handleKernel (fs : List (String × String)) : String :=
                   return some s!"lane model of the AVX2 U16x2 horizontal kernels: pixel ({x},{y}) channel {ch}: model={px.getD ch 0} got={got[(y * dw + x) * 2 + ch]!}"
           return none
         else none
+      -- U16 on AVX2, horizontal pass: four-row blocks by halves (= the SSE4.1 row), leftover rows through the AVX2 one-row kernel
+      let lane161a : Option String :=
+        if p.kind == .u16 ∧ p.n == 1 ∧ ext == "avx2" ∧ pass == "h" ∧ got.size == dw * dh then Id.run do
+          let q := normalize32 c
+          for y in [0:dh] do
+            let row : List Int := (List.range sw).map fun i => src[(offset + y) * sw + i]!
+            for x in [0:dw] do
+              let (start, ks) := q.chunks.getD x (0, #[])
+              let px := if y < dh - dh % 4 then SimdU16x1.pixel q.precision row start ks.toList
+                        else SimdU16x1A.pixelA q.precision row start ks.toList
+              if px ≠ got[y * dw + x]! then
+                return some s!"lane model of the AVX2 U16 horizontal kernels: pixel ({x},{y}): model={px} got={got[y * dw + x]!}"
+          return none
+        else none
+      let lane162a := match lane162a with | some e => some e | none => lane161a
       let lane164a := match lane164a with | some e => some e | none => lane162a
       let lane163 := match lane163 with | some e => some e | none => lane164a
       let lane162 := match lane162 with | some e => some e | none => lane163
